@@ -65,6 +65,7 @@ def prove(assumptions, goal, seed=0, timeout_ms=None, use_cvc5=True, both=False,
     lemmas are instantiated by trigger matching on the unfolded terms (vc/lemmas.py)."""
     from . import norm, lemmas as lem
     t0 = time.time()
+    norm.set_rules(lemmas)
     assumptions, goal = norm.prep(assumptions, goal, split_depth=split_depth)
     if lemmas:
         n = norm.Normalizer()
@@ -95,8 +96,54 @@ def prove(assumptions, goal, seed=0, timeout_ms=None, use_cvc5=True, both=False,
     return v
 
 
+def prove_group(assumptions, goals, seed=0, timeout_ms=None, use_cvc5=True, both=False, lemmas=None, split_depth=0):
+    """Several goals under the same assumptions: unfolding and lemma instantiation are done once for the group."""
+    from . import norm, lemmas as lem
+    t0 = time.time()
+    norm.set_rules(lemmas)
+    n = norm.shared_normalizer()
+    nas, ngs = norm.prep_many(assumptions, goals, split_depth=split_depth, normalizer=n)
+    if lemmas:
+        inst = lem.instantiate(lemmas, list(nas) + list(ngs))
+        nas = list(nas) + [n.norm(i) for i in inst]
+    s = _mk_solver(timeout_ms or Z3_TIMEOUT_MS, seed)
+    for a in nas:
+        s.add(a)
+    prep_s = (time.time() - t0) / max(1, len(goals))
+    out = []
+    for g in ngs:
+        t1 = time.time()
+        s.push()
+        s.add(z3.Not(g))
+        r = s.check()
+        dt = time.time() - t1 + prep_s
+        if r == z3.unsat:
+            v = Verdict('proved', 'z3', dt)
+        elif r == z3.sat:
+            v = Verdict('refuted', 'z3', dt, model=s.model())
+        else:
+            v = Verdict('unknown', 'z3', dt, detail=s.reason_unknown())
+        s.pop()
+        if (v.status == 'unknown' and use_cvc5) or both:
+            first, dt2, _ = run_cvc5(to_smt2(nas, g))
+            if first == 'unsat':
+                v = (Verdict('unknown', 'z3+cvc5', dt + dt2, detail='solvers disagree: z3 sat, cvc5 unsat') if v.status == 'refuted'
+                     else Verdict('proved', 'cvc5' if v.status == 'unknown' else 'z3+cvc5', dt + dt2))
+            elif first == 'sat' and v.status == 'proved':
+                v = Verdict('unknown', 'z3+cvc5', dt + dt2, detail='solvers disagree: z3 unsat, cvc5 sat')
+            elif v.status == 'unknown':
+                v = Verdict('unknown', 'z3+cvc5', dt + dt2, detail=v.detail + ' / cvc5: ' + first)
+        out.append(v)
+    return out
+
+
 def feasible(assumptions, timeout_ms=2000):
     """Is the conjunction satisfiable?  unknown counts as feasible (only adds paths, never removes one)."""
+    from . import norm
+    try:
+        assumptions, _ = norm.prep(assumptions, z3.BoolVal(True))
+    except Exception:
+        pass
     s = _mk_solver(timeout_ms, 0)
     for a in assumptions:
         s.add(a)
